@@ -19,8 +19,11 @@ import (
 	"os"
 	"strconv"
 	"strings"
+	"time"
+	"unicode/utf8"
 
 	"github.com/youzan/ZanRedisDB/common"
+	"github.com/youzan/ZanRedisDB/node"
 	"zrverif/trace"
 )
 
@@ -42,13 +45,18 @@ type isoDrv struct {
 	spos map[string]int
 	kpos map[string]int
 	// driver-side bookkeeping, only to generate sensible commands (never logged as truth)
-	size    [5 * isoNT * isoNK]int
-	doomed  [5 * isoNT * isoNK]bool
-	local   bool
-	ncmd    int
-	nErr    int
-	byOp    map[string]int
-	touched map[int]bool
+	size     [5 * isoNT * isoNK]int
+	doomed   [5 * isoNT * isoNK]bool
+	local    bool
+	hung     bool
+	watchdog time.Duration
+	hot      [][3]int
+	// every bulkEvery-th step (on average) is a bulk clear episode; 0 = never
+	bulkEvery, nBulk int
+	ncmd             int
+	nErr             int
+	byOp             map[string]int
+	touched          map[int]bool
 }
 
 func isoTup(ty, t, k int) int { return ((ty-1)*isoNT+(t-1))*isoNK + k }
@@ -227,6 +235,13 @@ func (d *isoDrv) one(op string, ty, t, k, a, b int) {
 }
 
 func (d *isoDrv) delTable(t int) {
+	if err := (node.DeleteTableRange{Table: d.tabs[t-1], DeleteAll: true}).CheckValid(); err != nil {
+		// rejected before it would be proposed (KVNode.DeleteRange; a table name that is not
+		// valid UTF-8 cannot be carried by the JSON proposal - fixed finding
+		// C12-deltable-nonutf8-table): logged with reply -998, nothing may change
+		d.emit("deltable", 1, t, 0, -998, nil)
+		return
+	}
 	r := d.wd.delTable(d.tabs[t-1])
 	if r != nil {
 		d.nErr++
@@ -244,11 +259,21 @@ func (d *isoDrv) delTable(t int) {
 }
 
 func (d *isoDrv) runExpiry() {
-	err := d.wd.store.VerifScanLocalExpireOnce()
+	// the pass runs under a watchdog: on the mem engine it can block forever (known finding
+	// C12-mem-expiry-pass-deadlock; 20 s there, 120 s on pebble so that a starved machine is not mistaken for it); then the event is logged with reply -997 and the run ends
+	done := make(chan error, 1)
+	go func() { done <- d.wd.store.VerifScanLocalExpireOnce() }()
 	rr := 0
-	if err != nil {
-		rr = -998
-		d.nErr++
+	select {
+	case err := <-done:
+		if err != nil {
+			rr = -998
+			d.nErr++
+		}
+	case <-time.After(d.watchdog):
+		d.tw.Emit(trace.M{"ev": "cmd", "op": "runexpiry", "u": 1, "a": 0, "b": 0, "r": -997, "rl": []int{}, "d": [][][2]int{}})
+		d.hung = true
+		return
 	}
 	for i := range d.doomed {
 		d.doomed[i] = false
@@ -289,7 +314,58 @@ func (d *isoDrv) keysOf(ty, t int) {
 	d.emit("keys", isoTup(ty, t, 1), 0, 0, rr, rl)
 }
 
+// bulkClear: the > 5 000-element branch of the clears (engine DeleteRange instead of single
+// deletes).  The tuple must be non-empty in the specification's view; the driver adds 5 002
+// further elements that are NOT logged (names outside the pools) and immediately clears the
+// tuple with a logged clear: whatever the range delete removes beyond the tuple shows in the
+// full dump, and the unlogged elements never outlive the step.
+func (d *isoDrv) bulkClear() {
+	ty := []int{2, 3, 4, 5}[d.rng.Intn(4)]
+	t, k := 1+d.rng.Intn(isoNT), 1+d.rng.Intn(isoNK)
+	u := isoTup(ty, t, k)
+	// collections above 128 elements on a table whose name is not valid UTF-8 panic in a
+	// metric label (recorded for C11): bulk episodes stay on valid names
+	// ... and on short names (5 002 engine keys of 10 kB each only stall the engine)
+	if d.doomed[u-1] || !utf8.ValidString(d.tabs[t-1]) || len(d.rkey(t, k)) > 300 {
+		return
+	}
+	switch ty {
+	case 2:
+		d.one("hset", ty, t, k, 1+d.rng.Intn(isoNS), 1)
+	case 3:
+		d.one("rpush", ty, t, k, 1, 0)
+	case 4:
+		d.one("sadd", ty, t, k, 1+d.rng.Intn(isoNS), 0)
+	case 5:
+		d.one("zadd", ty, t, k, 1+d.rng.Intn(isoNS), 2)
+	}
+	key := d.rkey(t, k)
+	for part := 0; part < 2; part++ {
+		args := []string{[]string{"", "", "hmset", "rpush", "sadd", "zadd"}[ty], key}
+		for i := 0; i < 2501; i++ {
+			n := fmt.Sprintf("bulk-%d-%05d", part, i)
+			switch ty {
+			case 2:
+				args = append(args, n, "x")
+			case 3, 4:
+				args = append(args, n)
+			case 5:
+				args = append(args, "7", n)
+			}
+		}
+		if _, bad := d.wd.apply(args...).(error); bad {
+			d.nErr++
+		}
+	}
+	d.nBulk++
+	d.one("clear", ty, t, k, 0, 0)
+}
+
 func (d *isoDrv) step() {
+	if d.bulkEvery > 0 && d.rng.Intn(d.bulkEvery) == 0 {
+		d.bulkClear()
+		return
+	}
 	r := d.rng.Intn(100)
 	switch {
 	case r < 3:
@@ -303,6 +379,12 @@ func (d *isoDrv) step() {
 		return
 	}
 	ty, t, k := 1+d.rng.Intn(5), 1+d.rng.Intn(isoNT), 1+d.rng.Intn(isoNK)
+	if len(d.hot) > 0 && d.rng.Intn(10) < 6 {
+		// most commands go to a few hot tuples, so that one tuple sees write / clear /
+		// re-create sequences while all the others are watched
+		h := d.hot[d.rng.Intn(len(d.hot))]
+		ty, t, k = h[0], h[1], h[2]
+	}
 	u := isoTup(ty, t, k)
 	if d.doomed[u-1] {
 		return // not written again before the next expiry pass (generator constraint)
@@ -389,6 +471,10 @@ func isosim(args []string) error {
 	slen := fs.Int("len", 60, "commands per world")
 	policy := fs.String("policy", "local", "expiry policy: local | compact")
 	longLen := fs.Int("long", 9900, "length of the shared prefix of the long names")
+	tabsel := fs.Int("tables", -1, "force the table triple (-1: by seed)")
+	bulkEvery := fs.Int("bulk", 0, "one step in N is a > 5 000-element clear episode (0 = none)")
+	burst := fs.Bool("burst", false, "local policy: start every world with keys of three types expiring in one pass")
+	expire := fs.Bool("expire", true, "local policy: include expire commands and the expiry pass")
 	fs.Parse(args)
 	scnPools = scnBuildPools(*longLen)
 
@@ -414,7 +500,10 @@ func isosim(args []string) error {
 			usable = append(usable, i)
 		}
 	}
-	d := &isoDrv{wd: wd, rng: rng, local: pol == common.LocalDeletion, byOp: map[string]int{}, touched: map[int]bool{}}
+	d := &isoDrv{wd: wd, rng: rng, local: pol == common.LocalDeletion && *expire, byOp: map[string]int{}, touched: map[int]bool{}, bulkEvery: *bulkEvery, watchdog: 120 * time.Second}
+	if *et == "mem" {
+		d.watchdog = 20 * time.Second // the engine the recorded deadlock is about
+	}
 	poolsUsed := map[int]bool{}
 	tablesUsed := map[int]bool{}
 	for seg := 0; seg < *nseg; seg++ {
@@ -422,8 +511,10 @@ func isosim(args []string) error {
 			return err
 		}
 		d.tw = tws[seg%len(tws)]
-		d.tw.Emit(trace.M{"ev": "reset"})
 		ki, si, ti := usable[rng.Intn(len(usable))], usable[rng.Intn(len(usable))], rng.Intn(len(scnTables))
+		if *tabsel >= 0 {
+			ti = *tabsel
+		}
 		if ki == 5 || ki == 7 {
 			for len(scnTables[ti][0])+*longLen+10 > common.MaxKeySize {
 				ti = rng.Intn(len(scnTables))
@@ -433,6 +524,12 @@ func isosim(args []string) error {
 		d.tabs = scnTables[ti]
 		copy(d.keys[:], isoPick(rng, scnPools[ki].names, isoNK))
 		copy(d.subs[:], isoPick(rng, scnPools[si].names, isoNS))
+		if *et != "mem" && rng.Intn(2) == 0 {
+			// the empty field / member name is legal and sorts first: it sits exactly on the
+			// start key of its collection's range (not on mem: that key is a proper prefix of
+			// the collection's other keys, see the recorded radix-iterator finding)
+			d.subs[0] = ""
+		}
 		d.kpos, d.spos = map[string]int{}, map[string]int{}
 		for i, n := range d.keys {
 			d.kpos[n] = i + 1
@@ -440,14 +537,50 @@ func isosim(args []string) error {
 		for i, n := range d.subs {
 			d.spos[n] = i + 1
 		}
+		hx := func(ss []string) []string {
+			o := make([]string, len(ss))
+			for i, x := range ss {
+				if len(x) > 40 {
+					x = x[:4] + fmt.Sprintf("..(%d)..", len(x)) + x[len(x)-4:]
+				}
+				o[i] = fmt.Sprintf("%x", x)
+			}
+			return o
+		}
+		// the concrete names are for the report only
+		d.tw.Emit(trace.M{"ev": "reset", "tabs": hx(d.tabs[:]), "keys": hx(d.keys[:]), "subs": hx(d.subs[:])})
+		d.hot = nil
+		for i := 0; i < 6; i++ {
+			d.hot = append(d.hot, [3]int{1 + rng.Intn(5), 1 + rng.Intn(isoNT), 1 + rng.Intn(isoNK)})
+		}
 		d.size = [5 * isoNT * isoNK]int{}
 		d.doomed = [5 * isoNT * isoNK]bool{}
-		for i := 0; i < *slen; i++ {
-			d.step()
-		}
-		if d.local {
+		if *burst && d.local {
+			// keys of two data types expire in the same pass
+			d.one("set", 1, 1, 1, 1, 0)
+			d.one("hset", 2, 1, 1, 1, 1)
+			d.one("sadd", 4, 2, 2, 1, 0)
+			d.one("expire", 1, 1, 1, 0, 0)
+			d.one("expire", 2, 1, 1, 0, 0)
+			d.one("expire", 4, 2, 2, 0, 0)
 			d.runExpiry()
 		}
+		for i := 0; i < *slen && !d.hung; i++ {
+			d.step()
+		}
+		if d.local && !d.hung {
+			d.runExpiry()
+		}
+		if d.hung {
+			break
+		}
+	}
+	if d.hung {
+		for _, tw := range tws {
+			tw.Close()
+		}
+		summary(trace.M{"driver": "isosim", "eng": *et, "policy": *policy, "commands": d.ncmd, "hung": true})
+		os.Exit(0) // the store cannot be closed any more
 	}
 	for _, tw := range tws {
 		tw.Close()
@@ -465,6 +598,6 @@ func isosim(args []string) error {
 	}
 	summary(trace.M{"driver": "isosim", "eng": *et, "policy": *policy, "segments": *nseg, "commands": d.ncmd,
 		"by_op": d.byOp, "tuples_dumped_per_command": 5 * isoNT * isoNK, "dumps": d.ncmd, "errors": d.nErr,
-		"panics": wd.panics, "pools": pu, "table_sets": tu, "applied": wd.napply})
+		"panics": wd.panics, "bulk_clears": d.nBulk, "pools": pu, "table_sets": tu, "applied": wd.napply})
 	return nil
 }
